@@ -11,11 +11,15 @@ import ast
 
 from pyfront import ir
 from pyfront.gen import Target
-from pyfront.interp import Interp, Matrix, Builtin, Obj, RaisedInSource, TranslationError
+from pyfront.interp import Interp, Matrix, Builtin, Obj, RaisedInSource, TranslationError, BoundMethod
 
 F = 'neurodiffeq/networks.py'
 P = lambda n: ('par', n)
 V = lambda n: ('var', n)
+
+
+def _is_static(fn):
+    return any(isinstance(d, ast.Name) and d.id == 'staticmethod' for d in fn.decorator_list)
 
 
 class TPar(tuple):
@@ -57,9 +61,14 @@ class NetInterp(Interp):
                 self.err(n, 'torch.tensor usage')
             return self.tens(n, args[0])
         if name == 'torch.nn.Parameter':
-            if len(args) != 1 or kwargs:
+            rg = kwargs.pop('requires_grad', True)
+            if len(args) != 1 or kwargs or not isinstance(rg, bool):
                 self.err(n, 'nn.Parameter usage')
-            return TPar(self.tens(n, args[0]))
+            return TPar(self.tens(n, args[0])) if rg else self.tens(n, args[0])
+        if name == 'torch.pow':
+            if len(args) != 2 or kwargs:
+                self.err(n, 'torch.pow arity')
+            return self.binop(n, ast.Pow, args[0], args[1])
         if name in ('torch.nn.functional.tanh',):
             if len(args) != 1 or kwargs:
                 self.err(n, f'{name} arity')
@@ -84,6 +93,13 @@ class NetInterp(Interp):
             return len(args[0])
         return super().builtin(n, name, args, kwargs)
 
+    def attribute(self, n, env):
+        if isinstance(n.value, ast.Name) or isinstance(n.value, ast.Attribute):
+            base = self.eval(n.value, env)
+            if isinstance(base, list) and n.attr == 'extend':
+                return ('%lextend', base)
+        return super().attribute(n, env)
+
     def binop(self, node, op, a, b):
         # (n,k) tensor ** int: column-wise
         if op is ast.Pow and isinstance(a, Matrix):
@@ -93,7 +109,15 @@ class NetInterp(Interp):
         return super().binop(node, op, a, b)
 
     def apply(self, n, f, args, kwargs):
-        # forward(t): x = self.NN(t) etc. are not interpreted (row-wise composition is the hand model)
+        # self._helper(...) / obj._helper(...) where _helper is a @staticmethod of the class: the instance is
+        # not passed (pyfront's BoundMethod would prepend it); the body is interpreted like any other method
+        if isinstance(f, BoundMethod) and _is_static(f.func_node):
+            return self.call_function(f.func_node, list(args), kwargs, {}, owner=f.owner)
+        if isinstance(f, tuple) and f and f[0] == '%lextend':
+            if len(args) != 1 or kwargs or not isinstance(args[0], (list, tuple)):
+                self.err(n, 'list.extend(<concrete sequence>) expected')
+            f[1].extend(list(args[0]))
+            return None
         return super().apply(n, f, args, kwargs)
 
 
